@@ -334,3 +334,27 @@ Qed.
 (* the bilinear form is genuinely not an inner product: dot [i] [i] = -1 (so |dot u u| = sum|u_i|^2 only as a modulus) *)
 Lemma cdot_not_hermitian : dot (A := ACR) [mkC (A := AR) 0 1] [mkC (A := AR) 0 1] = Ok (mkC (A := AR) (-1) 0).
 Proof. unfold dot, dot_raw. cbn. f_equal. apply cplx_ext; cbn; lra. Qed.
+
+(* Cauchy-Schwarz holds for the raw loop as well (combine stops at the shorter vector: lengths need not agree) *)
+Lemma cdot_raw_cauchy_schwarz_lemma (u v : list (cplx AR)) :
+  cm (dot_raw (A := ACR) u v) <= R_sqrt.sqrt (sumabs2 u) * R_sqrt.sqrt (sumabs2 v).
+Proof.
+  unfold dot_raw. eapply Rle_trans; [apply cm_fold_dot|].
+  change (@zero ACR) with (@czero AR). rewrite cm_czero, Rplus_0_l, !sumabs2_sumsq. apply cauchy_schwarz_sqrt.
+Qed.
+
+(* ====================================================================== 4. the complex norms are the real norms of the moduli *)
+(* ... so every law of Props/C15.v for real vectors transfers along  v |-> map |.| v  *)
+Lemma Rabs_cm (z : cplx AR) : Rabs (cm z) = cm z.
+Proof. apply Rabs_pos_eq, cm_nonneg. Qed.
+
+Lemma cnorm_via_moduli_lemma (v : list (cplx AR)) :
+  cnorm_inf (F := SAR) v = Vector.norm_inf (F := VectorR.SAR) Rabs (map cm v) /\
+  norm_1 (A := ACR) v = mkC (A := AR) (norm_1 (A := VectorR.AR) (map cm v)) 0.
+Proof.
+  split.
+  - destruct v as [|z0 t]; [reflexivity|]. rewrite cnorm_inf_C. cbn [map]. rewrite norm_inf_R. f_equal.
+    rewrite Rabs_cm, map_map. f_equal. apply map_ext. intros z. symmetry. apply Rabs_cm.
+  - rewrite cnorm1_value_lemma, norm_1_R. unfold summod, sumabs. f_equal. f_equal.
+    rewrite map_map. apply map_ext. intros z. symmetry. apply Rabs_cm.
+Qed.
